@@ -228,6 +228,11 @@ FlagsTruthful == (l > 1 /\ CommitOK(Cur)) => \A i \in 1..Len(Cur.regs) : FlagsOf
 EncodedLenRelation == (l > 1 /\ CommitOK(Cur)) => \A i \in 1..Len(Cur.regs) : SizeOf(Cur.regs[i], ColdSlabNodes(Cur))
 \* C09 on the ledger: after a successful commit the registers are exactly the slabs reachable from the roots held by the caller
 \* (nothing the history released is left behind in the ledger, nothing reachable is missing from it)
+\* C09 on the registers alone: what a brand-new storage sees after the commit - every reference resolves, every register decodes,
+\* and the registers are exactly the slabs reachable from the roots
+ColdResolves == (l > 1 /\ CommitOK(Cur)) =>
+  /\ Cur.coldbad = 0
+  /\ {Cur.coldreach[i] : i \in 1..Len(Cur.coldreach)} = {Cur.regs[i].id : i \in 1..Len(Cur.regs)}
 NoLeakInLedger == (l > 1 /\ CommitOK(Cur)) => {Cur.regs[i].id : i \in 1..Len(Cur.regs)} = {Cur.st.reach[i] : i \in 1..Len(Cur.st.reach)}
 
 TraceAccepted ==
